@@ -278,6 +278,7 @@ pdgstrf_MemInit(int_t n, int_t annz, superlumt_options_t *superlumt_options,
 
     if ( !dexpanders )
       dexpanders = (ExpHeader *) SUPERLU_MALLOC(NO_MEMTYPE * sizeof(ExpHeader));
+    if ( !dexpanders ) SUPERLU_ABORT("SUPERLU_MALLOC fails for dexpanders[].");
 
     if ( refact == NO ) {
 
@@ -323,6 +324,13 @@ pdgstrf_MemInit(int_t n, int_t annz, superlumt_options_t *superlumt_options,
 	    xlusup_end = (int_t *)duser_malloc((n) * iword, HEAD);
 	    xusub      = (int_t *)duser_malloc((n+1) * iword, HEAD);
 	    xusub_end  = (int_t *)duser_malloc((n) * iword, HEAD);
+	    if ( !xsup || !xsup_end || !supno || !xlsub || !xlsub_end ||
+		 !xlusup || !xlusup_end || !xusub || !xusub_end ) {
+		/* The user-supplied work space cannot even hold the
+		   integer pointer arrays. */
+		printf("Not enough memory to perform factorization.\n");
+		return (GluIntArray(n) * iword + n);
+	    }
 	}
 
 	lusup = (double *) pdgstrf_expand( &nzlumax, LUSUP, 0, 0, Glu );
